@@ -19,7 +19,7 @@ RULE = ('cases = (program R^N->R^M, recording point & kind, evaluation point != 
 ASSUMPTIONS = ['reference derivatives by forward propagation of the same program (C01/C02/C07-validated) and exact rational arithmetic for polynomial programs',
                'tolerance 1e-8 relative']
 
-KINDS = ['ew', 'ew', 'bin', 'bin', 'binc', 'getitem', 'sum', 'dot', 'dotc', 'prod', 'buffer', 'buffer', 'bufferconst', 'reshape', 'outer', 'linalg', 'tri', 'cplxparts', 'setarr', 'realalias']
+KINDS = ['ew', 'ew', 'bin', 'bin', 'binc', 'getitem', 'sum', 'dot', 'dotc', 'prod', 'buffer', 'buffer', 'bufferconst', 'bufferiop', 'reshape', 'outer', 'linalg', 'tri', 'cplxparts', 'setarr', 'realalias', 'maxmin']
 
 
 def make_case(rng, tier):
